@@ -21,6 +21,13 @@ Every generator yields Case objects:
 
 import itertools
 import random
+import os
+import sys
+
+_here = os.path.dirname(os.path.abspath(__file__))
+if _here not in sys.path:
+    sys.path.insert(0, _here)
+
 
 from terms import (NIL, TRUE, FAIL, CUT, atom, int_, var, fun, call, eq, neq, conj,
                    mklist, name_arity, vars_of)
